@@ -450,6 +450,22 @@ func c07Probes(w *World, r *rand.Rand) [][]byte {
 		}
 		out = append(out, txExpireVotes(w.Users[0], id, memo()), txPropCancel(w.Users[0], id, memo()), txPropCancel(w.Users[1], id, memo()))
 	}
+	// the bid external app: transactions about the conversations of scenario "bidflow" (and unknown ones)
+	// that are only ever checked — the stores of the external app are objects shared by the check and the
+	// deliver connection
+	o := func(x string) action.Amount { return oltAmt(x + "000000000000000000") }
+	for ci, id := range append(bidflowConvs(w)[1:], bidConvID(w.Users[0].Addr, "nosuch.ol", w.Users[1].Addr, 1)) {
+		for ui, u := range w.Users {
+			out = append(out, txBidExpire(u, id, memo()), txBidCancel(u, id, memo()), txBidCounter(u, id, o("9"), memo()), txBidOffer(u, id, o("1"), memo()),
+				txBidBidderDecision(u, id, 1+(ci+ui)%2, memo()), txBidOwnerDecision(u, id, 1+(ci+ui)%2, memo()))
+		}
+	}
+	for ui, u := range w.Users {
+		for _, dn := range []string{"bf1.ol", "bf2.ol", "bf3.ol", "bf4.ol", "n0.ol", "n1.ol"} {
+			out = append(out, txBidCreate(u, w.Users[(ui+1)%2].Addr, dn, bidOns, o("1"), bidFar, memo()))
+		}
+		out = append(out, txBidCreate(u, w.Users[0].Addr, "thing", bidExample, o("1"), bidFar, memo()))
+	}
 	return out
 }
 
